@@ -14,20 +14,21 @@ def parseEntry (b : Str) : Entry :=
 
 def sortStrs (l : List Str) : List Str := l.mergeSort (fun a b => decide (a ≤ b))
 
-def run (op : String) (args impl : List String) : Outcome :=
+def run (op : String) (args0 impl : List String) : Outcome :=
+  let args := if args0.length == 7 then args0 ++ ["-"] else args0
   match op, args with
-  | "run", [file, dir, hidden, follow, skips, root, tree] =>
+  | "run", [file, dir, hidden, follow, skips, root, tree, cwd] =>
     let b (x : String) := x == "1"
     let o : Opts := { file := b file, dir := b dir, hidden := b hidden, follow := b follow, skips := parseStrList skips }
     let es := (parseStrList tree).map parseEntry
     -- directories implied by deeper entries exist as well
-    let out := sortStrs (walk o es (parseNatList root))
+    let out := sortStrs (walkCwd o es (parseNatList cwd) (parseNatList root))
     let got := parseStrList (impl.headD "_")
     -- spec (C19): every listed path names an entry of the tree once; nothing under a pruned or
     -- (without `hidden`) hidden directory is listed; with `hidden` unset, hidden *entries* are omitted
     let hiddenListed := got.filter fun p =>
       let comps := (splitOn 47 p).filter (· != [])
-      !o.hidden && comps.any (fun c => c.head? == some 46)
+      !o.hidden && comps.any (fun c => c.head? == some 46 && c != [46, 46])
     let spec : Option (Except String Unit) :=
       if got.eraseDups.length != got.length then specFail "[C19] a path is listed more than once"
       else if got.any (fun p => [46, 47].isPrefixOf p) then specFail "[C19] a path is printed with a leading ./"
@@ -37,6 +38,7 @@ def run (op : String) (args impl : List String) : Outcome :=
     { model := showStrList out, spec,
       tags := ["run"] ++ (if o.follow then ["follow"] else []) ++ (if o.hidden then ["hidden"] else []) ++ (if o.dir then ["dir"] else []) ++
         (if !o.skips.isEmpty then ["skip"] else []) ++ (if es.any (·.kind == .link) then ["symlink"] else []) ++
+        (if cwd != "-" then ["cwd"] else []) ++ (if root == "46,46" then ["dotdot"] else []) ++
         (if out.length ≥ 2 ∧ out.length < es.length then ["nt"] else []) }
   | _, _ => { model := "bad-op" }
 
